@@ -1476,6 +1476,14 @@ emitdata(struct decl *d, struct init *init)
 			assert(cur->expr->kind == EXPRSTRING);
 			assert(init->expr->kind == EXPRCONST);
 			i = (init->start - cur->start) / cur->expr->type->base->size;
+			if (i >= cur->expr->u.string.size) {
+				/* the string is shorter than the array: extend it with zeros up to the element that is set */
+				size_t w = cur->expr->type->base->size, n = cur->expr->u.string.size;
+
+				cur->expr->u.string.data = xreallocarray(cur->expr->u.string.data, i + 1, w);
+				memset((char *)cur->expr->u.string.data + n * w, 0, (i + 1 - n) * w);
+				cur->expr->u.string.size = i + 1;
+			}
 			switch (cur->expr->type->base->size) {
 			case 1: ((unsigned char *)cur->expr->u.string.data)[i]  = init->expr->u.constant.u; break;
 			case 2: ((uint_least16_t *)cur->expr->u.string.data)[i] = init->expr->u.constant.u; break;
